@@ -885,9 +885,16 @@ put_char_space(struct caption *cc, cc_channel *ch)
 static inline cc_channel *
 switch_channel(struct caption *cc, cc_channel *ch, int new_chan)
 {
-	word_break(cc, ch, 1); // we leave for a number of frames
+	int field2 = (new_chan >> 1) & 1;
 
-	return &cc->channel[cc->curr_chan = new_chan];
+	ch = ch;
+
+	/* We leave the current channel of this field for a
+	   number of frames. */
+	word_break(cc, &cc->channel[(cc->curr_chan[field2] & 5)
+				    + field2 * 2], 1);
+
+	return &cc->channel[cc->curr_chan[field2] = new_chan];
 }
 
 static void
@@ -928,7 +935,7 @@ caption_command(vbi_decoder *vbi, struct caption *cc,
 	int chan, col, i;
 	int last_row;
 
-	chan = (cc->curr_chan & 4) + field2 * 2 + ((c1 >> 3) & 1);
+	chan = (cc->curr_chan[field2] & 4) + field2 * 2 + ((c1 >> 3) & 1);
 	ch = &cc->channel[chan];
 
 	c1 &= 7;
@@ -1416,7 +1423,7 @@ vbi_decode_caption(vbi_decoder *vbi, int line, uint8_t *buf)
 			fflush(stdout);
 		)
 
-		ch = &cc->channel[(cc->curr_chan & 5) + field2 * 2];
+		ch = &cc->channel[(cc->curr_chan[field2] & 5) + field2 * 2];
 
 		if (buf[0] == 0x80 && buf[1] == 0x80) {
 			if (ch->mode) {
